@@ -9,6 +9,7 @@ func init() {
 		"a hang is detected by the 20 s per-case watchdog of the kit (a normal case takes milliseconds)",
 		"the SDK hands Collect's context on to the callbacks (that is how a callback knows which reader's collection it serves); nothing is asserted about the data of instruments whose name the SDK refuses or of callbacks registered on them, nor about whether such rejections are reported",
 		"the refusing wrapper provider of the harness stands for a strict bridge: it answers marked instruments with (nil, err) and callbacks given a nil instrument with (nil, err); the same 'nothing asserted about refused ones' applies",
+		"the auto-instrumentation flag (normally flipped by an eBPF agent from outside the process) is set through the verif hook only at phase barriers; nothing is asserted about the delivery of auto-instrumentation SDK spans (started through placeholder tracers before installation while the flag is on)",
 		"special measurement values: negative values only on up-down counters and gauges, NaN not on monotonic counters (undefined by the API); a data point holding exactly one measurement is expected to report that value (histogram: count 1, sum = value)",
 	))
 }
